@@ -41,6 +41,10 @@ fn subj_scn(kind: SubjKind, producers: Vec<Vec<i64>>, roles: Vec<Role>, q: Optio
   scn(&name, &family, q, t, move || {
     let recs: Vec<Rec> = roles.iter().map(|_| Rec::new()).collect();
     let recs2 = recs.clone();
+    // stamps: when a late subscribe returned / a leaving unsubscribe was called (per observer),
+    // and when each push started / returned (per value)
+    let stamps = Stamps::new();
+    let stamps2 = stamps.clone();
     let (producers2, roles2) = (producers.clone(), roles.clone());
     let body: Body = Box::new(move || {
       let sbj = AnySubject::new(kind);
@@ -55,28 +59,37 @@ fn subj_scn(kind: SubjKind, producers: Vec<Vec<i64>>, roles: Vec<Role>, q: Optio
       for (i, r) in roles2.iter().enumerate() {
         match r {
           Role::Late => {
-            let (s, rec) = (sbj.clone(), recs2[i].clone());
+            let (s, rec, st) = (sbj.clone(), recs2[i].clone(), stamps2.clone());
             hs.push(thread::spawn(move || {
               let _sub = rec.sub_i64(&s.observable());
+              st.mark(&format!("subscribed:{}", i));
             }));
           }
           Role::Leaving => {
             let sub = subs.iter().find(|x| x.0 == i).unwrap().1.clone();
-            hs.push(thread::spawn(move || sub.unsubscribe()));
+            let st = stamps2.clone();
+            hs.push(thread::spawn(move || {
+              st.mark(&format!("unsubscribing:{}", i));
+              sub.unsubscribe()
+            }));
           }
           Role::Resident => {}
         }
       }
       for p in producers2.iter().skip(1).cloned() {
-        let s = sbj.clone();
+        let (s, st) = (sbj.clone(), stamps2.clone());
         hs.push(thread::spawn(move || {
           for v in p {
+            st.mark(&format!("push-start:{}", v));
             s.next(v);
+            st.mark(&format!("push-end:{}", v));
           }
         }));
       }
       for v in &producers2[0] {
+        stamps2.mark(&format!("push-start:{}", v));
         sbj.next(*v);
+        stamps2.mark(&format!("push-end:{}", v));
       }
       for h in hs {
         let _ = h.join();
@@ -133,6 +146,28 @@ fn subj_scn(kind: SubjKind, producers: Vec<Vec<i64>>, roles: Vec<Role>, q: Optio
             },
           }
         }
+        // delivery obligations that do not depend on how the race went:
+        // a push that started after subscribe() had returned must reach a late observer,
+        // a push that had returned before unsubscribe() was called must have reached a leaving one
+        for p in &producers {
+          for x in p {
+            let (ps, pe) = (stamps.get(&format!("push-start:{}", x)), stamps.get(&format!("push-end:{}", x)));
+            if *r == Role::Late {
+              if let (Some(ps), Some(sr)) = (ps, stamps.get(&format!("subscribed:{}", i))) {
+                if ps > sr && !got.contains(x) {
+                  v.push(viol("lost-item-pushed-after-subscribe-returned", format!("late observer got {:?}; push of {} started at {}, its subscribe had returned at {}", got, x, ps, sr)));
+                }
+              }
+            }
+            if *r == Role::Leaving {
+              if let (Some(pe), Some(uc)) = (pe, stamps.get(&format!("unsubscribing:{}", i))) {
+                if pe < uc && !got.contains(x) {
+                  v.push(viol("lost-item-pushed-before-unsubscribe", format!("leaving observer got {:?}; push of {} had returned at {}, unsubscribe was called at {}", got, x, pe, uc)));
+                }
+              }
+            }
+          }
+        }
         if *r == Role::Late && kind == SubjKind::Behavior {
           // receives a value, then every later value: with one producer the
           // whole sequence must be a non-empty suffix of [initial] ++ script
@@ -160,6 +195,7 @@ pub fn scenarios() -> Vec<Scn> {
     v.push(subj_scn(k, vec![vec![1, 2]], vec![Role::Late], Some(2), Some(4)));
     v.push(subj_scn(k, vec![vec![1, 2]], vec![Role::Leaving], Some(2), Some(4)));
     v.push(subj_scn(k, vec![vec![1, 2]], vec![Role::Resident, Role::Late, Role::Leaving], Some(1), Some(2)));
+    v.push(subj_scn(k, vec![vec![1, 2]], vec![Role::Late, Role::Leaving], Some(2), Some(3)));
     let (h0, h1) = two_hash_seeds();
     for h in [h0, h1] {
       v.push(with_seed(subj_scn(k, vec![vec![1, 2]], vec![Role::Resident, Role::Leaving], Some(2), Some(3)), h));
